@@ -252,6 +252,11 @@ theorem smooth_effect {h h' : Heap} {t : Nat} (hg : Good2 h) (hs : smooth h t = 
 theorem smooth_never_fails {h : Heap} (t : Nat) (hg : Good2 h) : ∃ h', smooth h t = .ok h' :=
   smooth_total t hg
 
+/-- **`smooth()` is idempotent**: a second call on the result changes nothing at all — the very same heap comes back (no object
+    is allocated, no pointer written) -/
+theorem smooth_idempotent {h h' : Heap} {t : Nat} (hg : Good2 h) (hs : smooth h t = .ok h') : smooth h' t = .ok h' :=
+  BS.Heap.smooth_idempotent hg hs
+
 /-! ### `decompose()` and `clear(decompose=True)`
 
 The model's mark for a destroyed element is `Isolated`: no parent, no children, no sibling and no element links — the state
@@ -353,6 +358,8 @@ example : (wStr.map fun h => squashId h.next (idView h 0)).toOption
     = some ([(12, .str [1, 2]), (3, .other 3), (11, .str [4, 5, 6]), (7, .other 7)], 13) := by decide
 example : (wStr.bind fun h => (smooth h 0).map (fun h' => (view h' 0, view h' 7, h'.parent 1, h'.parent 12))).toOption
     = some ([.str [1, 2], .other 3, .str [4, 5, 6], .other 7], [.str [8, 9]], none, some 0) := by decide
+example : (wStr.bind fun h => (smooth h 0).bind fun h' => (smooth h' 0).map (fun h'' => (h''.next, h''.kids 0, h''.kids 7))).toOption
+    = some (14, [12, 3, 11, 7], [13]) := by decide
 /-! non-vacuity for `decompose` / `clear(decompose=True)`: `t0` with children `[t1, s4]`, `t1` with children `[t2, s3]` -/
 def wDeep : Except Err Heap :=
   run (Heap.init [.tag, .tag, .tag, .str, .str])
